@@ -759,7 +759,13 @@ impl ObjectWrite for Content {
             let obj = self.parts[0].to_primitive(update)?;
             update.create(obj)?.to_primitive(update)
         } else {
-            self.parts.to_primitive(update)
+            // (streams are indirect objects: the array holds references to the parts)
+            let mut parts = Vec::with_capacity(self.parts.len());
+            for part in self.parts.iter() {
+                let obj = part.to_primitive(update)?;
+                parts.push(update.create(obj)?.to_primitive(update)?);
+            }
+            Ok(Primitive::Array(parts))
         }
     }
 }
